@@ -40,6 +40,7 @@ inductive IExp where
 inductive HCall where
   | constArg (i : HIdx)
   | intArg (i : HIdx)
+  | uintArg (i : HIdx)
   | derivArg (arg lo hi : IExp)
   deriving DecidableEq, Repr, Inhabited
 
@@ -119,6 +120,7 @@ def hcall (a : Args) (m : Mode) (pr : HPar) (e : Env) (iv : Nat → Int) (c : HC
   match c with
   | .constArg i => checkConstArg a (i.val pr e) s
   | .intArg i => checkIntArg a m (i.val pr e) s
+  | .uintArg i => checkUintArg a m (i.val pr e) s
   | .derivArg x lo hi => checkDerivArg (x.eval a pr e iv) (lo.eval a pr e iv) (hi.eval a pr e iv) s
 
 def hcond (a : Args) (m : Mode) (pr : HPar) (e : Env) (iv : Nat → Int) : HCond → St → Bool × St
